@@ -151,8 +151,33 @@ def theorems_of(props_file):
     return re.findall(r"^\s*(?:Theorem|Example)\s+(\w+)", src, re.M)
 
 
+def sources_digest():
+    h = hashlib.sha256()
+    for f in coq_files():
+        h.update(f.encode())
+        h.update(open(os.path.join(COQ, f), "rb").read())
+    return h.hexdigest()
+
+
 def audit(props_file):
-    """Print Assumptions for every theorem of Props/<file>.v.  Returns (ok, {thm: [axioms]}, msg)."""
+    """Print Assumptions for every theorem of Props/<file>.v (cached on the digest of all Coq sources:
+    the audit of reals-based theorems walks large Flocq proof terms).  Returns (ok, {thm: [axioms]}, msg)."""
+    cache = os.path.join(BUILD, "audit", props_file.replace("/", "_") + ".cache.json")
+    dig = sources_digest()
+    if os.path.exists(cache):
+        try:
+            c = json.load(open(cache))
+            if c.get("digest") == dig:
+                return c["ok"], c["res"], c["msg"]
+        except Exception:
+            pass
+    ok, res, msg = audit_uncached(props_file)
+    os.makedirs(os.path.dirname(cache), exist_ok=True)
+    json.dump({"digest": dig, "ok": ok, "res": res, "msg": msg}, open(cache, "w"))
+    return ok, res, msg
+
+
+def audit_uncached(props_file):
     thms = theorems_of(props_file)
     mod = props_file.replace("/", ".")
     name = props_file.replace("/", "_") + "_audit"
@@ -630,6 +655,20 @@ def setup():
     log("harness debug:", ok2, "" if ok2 else msg2)
     ok3, msg3 = build_harness("release")
     log("harness release:", ok3, "" if ok3 else msg3)
+    # warm the Print Assumptions cache of every property (in parallel)
+    import concurrent.futures
+    props = []
+    for n in sorted(os.listdir(os.path.join(ROOT, "tools", "props"))):
+        m = re.match(r"(c\d+)\.py$", n)
+        if m:
+            try:
+                props += importlib.import_module("props." + m.group(1)).PROPS_FILES
+            except Exception as e:
+                log("cannot import", n, e)
+    if rc == 0:
+        with concurrent.futures.ThreadPoolExecutor(max_workers=NCPU) as ex:
+            for pf, r in zip(props, ex.map(audit, props)):
+                log("audit", pf, r[0], r[2][:200])
     return 0 if (rc == 0 and ok and ok2 and ok3) else 1
 
 
